@@ -737,4 +737,452 @@ Section RepeatedProofs.
       auto using ok_base, ok_hd.
     unfold rcol_rows. rewrite (ok_canon c' P1 P2). apply map_ext. intros e. now rewrite entry_row_eq.
   Qed.
+
+  (** ** the comparator of value sequences: order properties *)
+  Section CmpValues.
+    Variable c : option V -> option V -> Z.
+    Hypothesis c_opp : forall a b, (c a b < 0 <-> c b a > 0)%Z.
+    Hypothesis c_trans : forall a b d, (c a b <= 0 -> c b d <= 0 -> c a d <= 0)%Z.
+
+    Lemma cmp_values_opp a : forall b, (cmp_values V c a b < 0 <-> cmp_values V c b a > 0)%Z.
+    Proof.
+      induction a as [|x a IH]; intros [|y b]; simpl; try lia.
+      assert (O1 := c_opp x y). assert (O2 := c_opp y x). specialize (IH b).
+      destruct (Z.eqb_spec (c x y) 0); destruct (Z.eqb_spec (c y x) 0); lia.
+    Qed.
+
+    Lemma cmp_values_refl a : cmp_values V c a a = 0%Z.
+    Proof.
+      induction a as [|x a IH]; simpl; auto.
+      assert (O := c_opp x x). destruct (Z.eqb_spec (c x x) 0); [auto|lia].
+    Qed.
+
+    Lemma cmp_values_trans a : forall b d,
+      (cmp_values V c a b <= 0 -> cmp_values V c b d <= 0 -> cmp_values V c a d <= 0)%Z.
+    Proof.
+      induction a as [|x a IH]; intros [|y b] [|z d]; simpl; try lia.
+      assert (T1 := c_trans x y z). assert (T2 := c_trans z x y).
+      assert (T3 := c_trans y z x). assert (T4 := c_trans z y x).
+      assert (T5 := c_trans y x z). assert (T6 := c_trans x z y).
+      assert (O1 := c_opp x y). assert (O2 := c_opp y x). assert (O3 := c_opp y z).
+      assert (O4 := c_opp z y). assert (O5 := c_opp x z). assert (O6 := c_opp z x).
+      specialize (IH b d).
+      destruct (Z.eqb_spec (c x y) 0); destruct (Z.eqb_spec (c y z) 0);
+        destruct (Z.eqb_spec (c x z) 0); intros; lia.
+    Qed.
+
+    (* first pair of elements that differs, then the shorter sequence first *)
+    Fixpoint first_diff (a b : list (option V)) : Z :=
+      match a, b with
+      | x :: a', y :: b' => let r := c x y in if Z.eqb r 0 then first_diff a' b' else r
+      | _, _ => 0%Z
+      end.
+
+    Definition len_cmp (n m : nat) : Z := if n <? m then (-1)%Z else if m <? n then 1%Z else 0%Z.
+
+    Lemma cmp_values_first_diff a : forall b,
+      cmp_values V c a b =
+      (let r := first_diff a b in if Z.eqb r 0 then len_cmp (length a) (length b) else r).
+    Proof.
+      induction a as [|x a IH]; intros [|y b]; simpl; try reflexivity.
+      rewrite IH. cbv zeta. destruct (Z.eqb_spec (c x y) 0) as [E|E]; [reflexivity|].
+      destruct (Z.eqb_spec (c x y) 0); [contradiction|reflexivity].
+    Qed.
+
+    Lemma first_diff_min a : forall b,
+      first_diff a b = first_diff (firstn (Nat.min (length a) (length b)) a)
+                                  (firstn (Nat.min (length a) (length b)) b).
+    Proof.
+      induction a as [|x a IH]; intros [|y b]; simpl; try reflexivity.
+      now rewrite <- IH.
+    Qed.
+  End CmpValues.
+
+  (** ** Less is the comparator *)
+  Lemma skipn_cons_inv {A} (l : list A) : forall x v t,
+    skipn x l = v :: t -> nth_error l x = Some v /\ skipn (S x) l = t.
+  Proof.
+    induction l as [|a l IH]; intros [|x] v t H; simpl in *; try discriminate.
+    - inversion H; subst. auto.
+    - apply IH. exact H.
+  Qed.
+
+  Lemma decide_step (r r' fd : Z) (rest : option bool) :
+    (r < 0 <-> r' > 0)%Z -> (r' < 0 <-> r > 0)%Z ->
+    rest = (if (fd =? 0)%Z then None else Some (fd <? 0)%Z) ->
+    (if (r <? 0)%Z then Some true else if (r' <? 0)%Z then Some false else rest) =
+    (let q := if (r =? 0)%Z then fd else r in if (q =? 0)%Z then None else Some (q <? 0)%Z).
+  Proof.
+    intros O1 O2 ->. cbv zeta.
+    destruct (Z.eqb_spec r 0) as [E|E].
+    - subst r. simpl. destruct (Z.ltb_spec r' 0); [lia|reflexivity].
+    - destruct (Z.eqb_spec r 0); [contradiction|].
+      destruct (Z.ltb_spec r 0); [reflexivity|]. destruct (Z.ltb_spec r' 0); [reflexivity|lia].
+  Qed.
+
+  Section Less.
+    (* the sorting column: max definition level, nulls first, descending.
+       Buffer.configure hands the column the null ordering [xorb nf desc]
+       and sets its descending flag. *)
+    Variable md : N.
+    Variables nf desc : bool.
+
+    Definition cfg_is (c : rcol) (nfo : bool) : Prop :=
+      rmaxdef V c = md /\ rnulls_first V c = nfo /\ rdescending V c = desc.
+
+    Notation cc := (cmp_col V cmp true desc nf).
+
+    Lemma less_step (base : list V) (d1 d2 : N) (x y : nat) :
+      (d1 = md -> x < length base) -> (d2 = md -> y < length base) ->
+      let a := if N.eqb d1 md then nth_error base x else None in
+      let b := if N.eqb d2 md then nth_error base y else None in
+      let less := if xorb nf desc then nulls_go_first V lt else nulls_go_last V lt in
+      let before0 := less base (Z.of_nat x) (Z.of_nat y) md d1 d2 in
+      let after0 := less base (Z.of_nat y) (Z.of_nat x) md d2 d1 in
+      (if desc then after0 else before0) = (cc a b <? 0)%Z /\
+      (if desc then before0 else after0) = (cc b a <? 0)%Z.
+    Proof.
+      intros Hx Hy. cbv zeta.
+      assert (Hnx : d1 = md -> exists vx, nth_error base x = Some vx).
+      { intros E. destruct (nth_error base x) eqn:Ex; eauto. apply nth_error_None in Ex. specialize (Hx E). lia. }
+      assert (Hny : d2 = md -> exists vy, nth_error base y = Some vy).
+      { intros E. destruct (nth_error base y) eqn:Ey; eauto. apply nth_error_None in Ey. specialize (Hy E). lia. }
+      destruct nf, desc; cbn [xorb]; unfold nulls_go_first, nulls_go_last, base_less; rewrite !Nat2Z.id;
+        unfold Model.cmp_col, cmp_nf, cmp_nl, cmp_desc, cmp_raw;
+        destruct (N.eqb_spec d1 md) as [E1|E1]; destruct (N.eqb_spec d2 md) as [E2|E2]; cbn [negb andb orb];
+        try (destruct (Hnx E1) as [vx ->]); try (destruct (Hny E2) as [vy ->]);
+        rewrite ?(lt_ltb V lt cmp lt_cmp); split; try reflexivity;
+        try apply (cmp_opp_ltb V cmp cmp_opp).
+    Qed.
+
+    Lemma less_loop_spec (c : rcol) : cfg_is c (xorb nf desc) -> forall n k off1 off2 x y,
+      off1 + k + n <= length (rdefs V c) -> off2 + k + n <= length (rdefs V c) ->
+      x + cnt md (slice (rdefs V c) (off1 + k) n) <= length (rbase V c) ->
+      y + cnt md (slice (rdefs V c) (off2 + k) n) <= length (rbase V c) ->
+      less_loop V lt c k n off1 off2 (Z.of_nat x) (Z.of_nat y) =
+      (let r := first_diff cc (vals_at md (slice (rdefs V c) (off1 + k) n) (skipn x (rbase V c)))
+                              (vals_at md (slice (rdefs V c) (off2 + k) n) (skipn y (rbase V c))) in
+       if (r =? 0)%Z then None else Some (r <? 0)%Z).
+    Proof.
+      intros (Hmd & Hnf & Hds). induction n as [|n IH]; intros k off1 off2 x y H1 H2 Hx Hy.
+      - reflexivity.
+      - cbn [less_loop]. rewrite Hmd, Hnf, Hds.
+        set (d1 := nth (off1 + k) (rdefs V c) 0%N). set (d2 := nth (off2 + k) (rdefs V c) 0%N).
+        rewrite (slice_S (rdefs V c) (off1 + k) n 0%N) in Hx |- * by lia.
+        rewrite (slice_S (rdefs V c) (off2 + k) n 0%N) in Hy |- * by lia.
+        fold d1 d2 in Hx, Hy |- *. rewrite cnt_cons in Hx, Hy.
+        assert (Bx : d1 = md -> x < length (rbase V c)).
+        { intros E. apply N.eqb_eq in E. rewrite E in Hx. lia. }
+        assert (By : d2 = md -> y < length (rbase V c)).
+        { intros E. apply N.eqb_eq in E. rewrite E in Hy. lia. }
+        destruct (less_step (rbase V c) d1 d2 x y Bx By) as [S1 S2]. cbv zeta in S1, S2.
+        rewrite S1, S2.
+        set (a := if N.eqb d1 md then nth_error (rbase V c) x else None) in *.
+        set (b := if N.eqb d2 md then nth_error (rbase V c) y else None) in *.
+        set (x' := if N.eqb d1 md then S x else x).
+        set (y' := if N.eqb d2 md then S y else y).
+        assert (Ex' : (if N.eqb d1 md then Z.of_nat x + 1 else Z.of_nat x)%Z = Z.of_nat x')
+          by (unfold x'; destruct (N.eqb d1 md); lia).
+        assert (Ey' : (if N.eqb d2 md then Z.of_nat y + 1 else Z.of_nat y)%Z = Z.of_nat y')
+          by (unfold y'; destruct (N.eqb d2 md); lia).
+        rewrite Ex', Ey'.
+        assert (Va : vals_at md (d1 :: slice (rdefs V c) (S (off1 + k)) n) (skipn x (rbase V c)) =
+                     a :: vals_at md (slice (rdefs V c) (S (off1 + k)) n) (skipn x' (rbase V c))).
+        { unfold a, x'. cbn [vals_at]. destruct (N.eqb_spec d1 md) as [E|E]; [|reflexivity].
+          destruct (skipn x (rbase V c)) as [|vx t] eqn:Es.
+          - exfalso. specialize (Bx E). assert (L := skipn_length x (rbase V c)). rewrite Es in L. simpl in L. lia.
+          - destruct (skipn_cons_inv _ _ _ _ Es) as [N1 N2]. now rewrite N1, N2. }
+        assert (Vb : vals_at md (d2 :: slice (rdefs V c) (S (off2 + k)) n) (skipn y (rbase V c)) =
+                     b :: vals_at md (slice (rdefs V c) (S (off2 + k)) n) (skipn y' (rbase V c))).
+        { unfold b, y'. cbn [vals_at]. destruct (N.eqb_spec d2 md) as [E|E]; [|reflexivity].
+          destruct (skipn y (rbase V c)) as [|vy t] eqn:Es.
+          - exfalso. specialize (By E). assert (L := skipn_length y (rbase V c)). rewrite Es in L. simpl in L. lia.
+          - destruct (skipn_cons_inv _ _ _ _ Es) as [N1 N2]. now rewrite N1, N2. }
+        rewrite Va, Vb. cbn [first_diff].
+        apply decide_step.
+        + apply (cmp_col_opp V cmp cmp_opp).
+        + apply (cmp_col_opp V cmp cmp_opp).
+        + rewrite <- !Nat.add_succ_r. apply IH; rewrite ?Nat.add_succ_r; try lia.
+          * unfold x'. destruct (N.eqb d1 md); lia.
+          * unfold y'. destruct (N.eqb d2 md); lia.
+    Qed.
+
+    Lemma nth_rcol_rows (c : rcol) i : i < length (rrows V c) ->
+      nth i (rcol_rows V c) [] = rcol_entry_row V c (nth i (rrows V c) (0, 0)).
+    Proof.
+      intros Hi. unfold rcol_rows.
+      rewrite (nth_indep _ [] (rcol_entry_row V c (0, 0))) by (now rewrite map_length).
+      apply map_nth.
+    Qed.
+
+    Lemma entry_vals (c : rcol) e : rcol_ok c -> In e (rrows V c) ->
+      map (rv_val V) (rcol_entry_row V c e) =
+      vals_at (rmaxdef V c) (slice (rdefs V c) (fst e) (row_length (rreps V c) (fst e)))
+              (skipn (snd e) (rbase V c)).
+    Proof.
+      intros Hok Hin. destruct (entry_base_enough c e Hok Hin) as (B1 & B2 & B3).
+      assert (Hl := ok_len c Hok). rewrite entry_row_eq. unfold entry_row'.
+      apply rpage_values_vals. rewrite !slice_length; lia.
+    Qed.
+
+    (** Less i j  =  (comparator (values of row i) (values of row j) < 0) *)
+    Theorem rcol_less_spec (c : rcol) i j :
+      rcol_ok c -> cfg_is c (xorb nf desc) -> i < length (rrows V c) -> j < length (rrows V c) ->
+      rcol_less V lt c i j =
+      (cmp_values V cc (map (rv_val V) (nth i (rcol_rows V c) []))
+                       (map (rv_val V) (nth j (rcol_rows V c) [])) <? 0)%Z.
+    Proof.
+      intros Hok Hcfg Hi Hj. assert (Hmd : rmaxdef V c = md) by apply Hcfg.
+      rewrite !nth_rcol_rows by auto.
+      set (r1 := nth i (rrows V c) (0, 0)). set (r2 := nth j (rrows V c) (0, 0)).
+      assert (In1 : In r1 (rrows V c)) by (apply nth_In; auto).
+      assert (In2 : In r2 (rrows V c)) by (apply nth_In; auto).
+      rewrite !entry_vals by auto. rewrite Hmd.
+      destruct (entry_base_enough c r1 Hok In1) as (A1 & A2 & A3).
+      destruct (entry_base_enough c r2 Hok In2) as (B1 & B2 & B3).
+      rewrite Hmd in A3, B3. assert (Hl := ok_len c Hok).
+      unfold rcol_less. fold r1 r2.
+      set (l1 := row_length (rreps V c) (fst r1)) in *. set (l2 := row_length (rreps V c) (fst r2)) in *.
+      set (m := Nat.min l1 l2).
+      assert (C1 : cnt md (slice (rdefs V c) (fst r1) m) <= cnt md (slice (rdefs V c) (fst r1) l1)).
+      { rewrite <- (firstn_slice (rdefs V c) (fst r1) l1 m) by lia. apply cnt_firstn_le. }
+      assert (C2 : cnt md (slice (rdefs V c) (fst r2) m) <= cnt md (slice (rdefs V c) (fst r2) l2)).
+      { rewrite <- (firstn_slice (rdefs V c) (fst r2) l2 m) by lia. apply cnt_firstn_le. }
+      rewrite (less_loop_spec c Hcfg m 0 (fst r1) (fst r2) (snd r1) (snd r2))
+        by (rewrite ?Nat.add_0_r; lia).
+      rewrite !Nat.add_0_r. cbv zeta.
+      set (A := vals_at md (slice (rdefs V c) (fst r1) l1) (skipn (snd r1) (rbase V c))).
+      set (B := vals_at md (slice (rdefs V c) (fst r2) l2) (skipn (snd r2) (rbase V c))).
+      assert (LA : length A = l1) by (unfold A; rewrite vals_at_length, slice_length; lia).
+      assert (LB : length B = l2) by (unfold B; rewrite vals_at_length, slice_length; lia).
+      assert (EA : first_diff cc A B =
+                   first_diff cc (vals_at md (slice (rdefs V c) (fst r1) m) (skipn (snd r1) (rbase V c)))
+                                 (vals_at md (slice (rdefs V c) (fst r2) m) (skipn (snd r2) (rbase V c)))).
+      { rewrite (first_diff_min cc A B), LA, LB. fold m. unfold A, B.
+        rewrite !vals_at_firstn, !firstn_slice by lia. reflexivity. }
+      rewrite cmp_values_first_diff. cbv zeta. rewrite EA, LA, LB.
+      set (r := first_diff cc _ _). destruct (Z.eqb_spec r 0) as [E|E].
+      - unfold len_cmp. destruct (Nat.ltb_spec l1 l2); [reflexivity|].
+        destruct (l2 <? l1); reflexivity.
+      - reflexivity.
+    Qed.
+
+    Lemma cc_opp a b : (cc a b < 0 <-> cc b a > 0)%Z.
+    Proof. apply (cmp_col_opp V cmp cmp_opp). Qed.
+
+    Lemma cc_trans a b d : (cc a b <= 0 -> cc b d <= 0 -> cc a d <= 0)%Z.
+    Proof. apply (cmp_col_trans V cmp cmp_opp cmp_trans); left; reflexivity. Qed.
+
+    Definition row_vals (c : rcol) (i : nat) : list (option V) :=
+      map (rv_val V) (nth i (rcol_rows V c) []).
+
+    (** Less is a strict weak order on the rows of the column *)
+    Definition rless_swo (c : rcol) (n : nat) : Prop :=
+      (forall i, i < n -> rcol_less V lt c i i = false) /\
+      (forall i j k, i < n -> j < n -> k < n ->
+         rcol_less V lt c i j = true -> rcol_less V lt c j k = true -> rcol_less V lt c i k = true) /\
+      (forall i j k, i < n -> j < n -> k < n ->
+         rcol_less V lt c i j = false -> rcol_less V lt c j i = false ->
+         rcol_less V lt c j k = false -> rcol_less V lt c k j = false ->
+         rcol_less V lt c i k = false /\ rcol_less V lt c k i = false).
+
+    Theorem rcol_less_swo (c : rcol) :
+      rcol_ok c -> cfg_is c (xorb nf desc) -> rless_swo c (length (rrows V c)).
+    Proof.
+      intros Hok Hcfg. set (n := length (rrows V c)).
+      assert (Hspec : forall i j, i < n -> j < n ->
+                rcol_less V lt c i j = (cmp_values V cc (row_vals c i) (row_vals c j) <? 0)%Z)
+        by (intros; apply rcol_less_spec; auto).
+      assert (Hopp := cmp_values_opp cc cc_opp). assert (Htr := cmp_values_trans cc cc_opp cc_trans).
+      split; [|split].
+      - intros i Hi. rewrite Hspec, (cmp_values_refl cc cc_opp) by auto. reflexivity.
+      - intros i j k Hi Hj Hk. rewrite !Hspec by auto. rewrite !Z.ltb_lt. intros H1 H2.
+        assert (T := Htr (row_vals c i) (row_vals c j) (row_vals c k)).
+        assert (T' := Htr (row_vals c k) (row_vals c i) (row_vals c j)).
+        assert (O1 := Hopp (row_vals c i) (row_vals c k)). assert (O2 := Hopp (row_vals c k) (row_vals c i)).
+        assert (O3 := Hopp (row_vals c j) (row_vals c k)). assert (O4 := Hopp (row_vals c k) (row_vals c j)). lia.
+      - intros i j k Hi Hj Hk. rewrite !Hspec by auto. rewrite !Z.ltb_ge. intros H1 H2 H3 H4.
+        assert (T1 := Htr (row_vals c i) (row_vals c j) (row_vals c k)).
+        assert (T2 := Htr (row_vals c k) (row_vals c j) (row_vals c i)).
+        assert (O1 := Hopp (row_vals c i) (row_vals c j)). assert (O2 := Hopp (row_vals c j) (row_vals c i)).
+        assert (O3 := Hopp (row_vals c j) (row_vals c k)). assert (O4 := Hopp (row_vals c k) (row_vals c j)).
+        assert (O5 := Hopp (row_vals c i) (row_vals c k)). assert (O6 := Hopp (row_vals c k) (row_vals c i)). lia.
+    Qed.
+
+    (** no adjacent inversion for Less: the rows are ordered by the comparator *)
+    Definition rsorted_by_less (c : rcol) (n : nat) : Prop :=
+      forall i, S i < n -> rcol_less V lt c (S i) i = false.
+
+    Theorem rsorted_rows_ordered (c : rcol) :
+      rcol_ok c -> cfg_is c (xorb nf desc) -> rsorted_by_less c (length (rrows V c)) ->
+      forall i j, i <= j -> j < length (rrows V c) ->
+        (cmp_values V cc (row_vals c i) (row_vals c j) <= 0)%Z.
+    Proof.
+      intros Hok Hcfg Hs i j Hij Hj. induction Hij as [|j Hij IH].
+      - rewrite (cmp_values_refl cc cc_opp). lia.
+      - assert (H := Hs j Hj). rewrite rcol_less_spec in H by (auto; lia). apply Z.ltb_ge in H.
+        fold (row_vals c (S j)) in H. fold (row_vals c j) in H.
+        assert (O := cmp_values_opp cc cc_opp (row_vals c j) (row_vals c (S j))).
+        assert (O' := cmp_values_opp cc cc_opp (row_vals c (S j)) (row_vals c j)).
+        eapply (cmp_values_trans cc cc_opp cc_trans); [apply IH; lia|lia].
+    Qed.
+
+    (** ** histories *)
+    Definition rop_ok (o : rop V) : Prop :=
+      match o with RWrite vs => batch_ok md vs | _ => True end.
+
+    (* the same operations on a plain list of rows *)
+    Definition rspec_step (rows : list (list rval)) (o : rop V) : list (list rval) :=
+      match o with
+      | RWrite vs => rows ++ cut_rows V (length vs) vs
+      | RSwap i j => swapl rows i j
+      | RPage => rows
+      end.
+
+    Definition rspec_run (ops : list (rop V)) : list (list rval) := fold_left rspec_step ops [].
+
+    Definition rwritten (ops : list (rop V)) : list (list rval) :=
+      flat_map (fun o => match o with RWrite vs => cut_rows V (length vs) vs | _ => [] end) ops.
+
+    Definition rreach (nfo : bool) (ops : list (rop V)) : rcol :=
+      fold_left (rcol_apply V) ops (new_rcol V md nfo desc).
+
+    Lemma apply_inv nfo c o : rcol_ok c -> cfg_is c nfo -> rop_ok o ->
+      rcol_ok (rcol_apply V c o) /\ cfg_is (rcol_apply V c o) nfo /\
+      rcol_rows V (rcol_apply V c o) = rspec_step (rcol_rows V c) o.
+    Proof.
+      intros Hok (Hmd & Hnf & Hds) Ho. destruct o as [vs|i j|]; cbn [rcol_apply rspec_step].
+      - simpl in Ho. rewrite <- Hmd in Ho. destruct (write_ok c vs Hok Ho) as [W1 W2].
+        split; [exact W1|]. split; [|exact W2].
+        rewrite rcol_write_flat. unfold cfg_is, flat_write. simpl. auto.
+      - split; [now apply swap_ok|]. split; [unfold cfg_is, rcol_swap; simpl; auto|apply rcol_swap_rows].
+      - destruct (page_ok c Hok) as (P1 & _ & (Q1 & Q2 & Q3) & P4).
+        split; [exact P1|]. split; [|exact P4]. unfold cfg_is. rewrite Q1, Q2, Q3. auto.
+    Qed.
+
+    Lemma run_inv nfo ops : forall c, rcol_ok c -> cfg_is c nfo -> Forall rop_ok ops ->
+      let c' := fold_left (rcol_apply V) ops c in
+      rcol_ok c' /\ cfg_is c' nfo /\ rcol_rows V c' = fold_left rspec_step ops (rcol_rows V c).
+    Proof.
+      induction ops as [|o ops IH]; intros c Hok Hcfg Hops; cbn [fold_left].
+      - cbv zeta. auto.
+      - inversion Hops as [|? ? Ho Hops']; subst.
+        destruct (apply_inv nfo c o Hok Hcfg Ho) as (A1 & A2 & A3).
+        destruct (IH _ A1 A2 Hops') as (I1 & I2 & I3). cbv zeta.
+        split; [exact I1|]. split; [exact I2|]. now rewrite I3, A3.
+    Qed.
+
+    Lemma new_rcol_ok nfo : rcol_ok (new_rcol V md nfo desc) /\ cfg_is (new_rcol V md nfo desc) nfo.
+    Proof. split; [constructor; simpl; auto|unfold cfg_is; simpl; auto]. Qed.
+
+    Theorem reach_inv nfo ops : Forall rop_ok ops ->
+      rcol_ok (rreach nfo ops) /\ cfg_is (rreach nfo ops) nfo /\
+      rcol_rows V (rreach nfo ops) = rspec_run ops.
+    Proof.
+      intros Hops. destruct (new_rcol_ok nfo) as [N1 N2].
+      exact (run_inv nfo ops _ N1 N2 Hops).
+    Qed.
+
+    Lemma rspec_perm ops : forall rows w, Permutation rows w ->
+      Permutation (fold_left rspec_step ops rows) (w ++ rwritten ops).
+    Proof.
+      induction ops as [|o ops IH]; intros rows w Hp; cbn [fold_left].
+      - unfold rwritten. simpl. now rewrite app_nil_r.
+      - unfold rwritten. cbn [flat_map]. fold (rwritten ops). destruct o as [vs|i j|]; cbn [rspec_step].
+        + rewrite app_assoc. apply IH. now apply Permutation_app_tail.
+        + simpl. apply IH. eapply perm_trans; [apply swapl_perm|exact Hp].
+        + simpl. now apply IH.
+    Qed.
+
+    (** For every history of writes of whole rows, exchanges and pages: the
+        logical rows are what the operations do to a plain list of rows, so are
+        the rows read from the page, and they are a permutation of the rows
+        written. *)
+    Theorem repeated_rows_preserved nfo ops : Forall rop_ok ops ->
+      rcol_rows V (rreach nfo ops) = rspec_run ops /\
+      rcol_page_rows V (rreach nfo ops) = rspec_run ops /\
+      rcol_rows V (rcol_page V (rreach nfo ops)) = rspec_run ops /\
+      Permutation (rspec_run ops) (rwritten ops).
+    Proof.
+      intros Hops. destruct (reach_inv nfo ops Hops) as (R1 & R2 & R3).
+      split; [exact R3|]. split; [now rewrite page_rows_ok|].
+      split; [destruct (page_ok _ R1) as (_ & _ & _ & P); now rewrite P|].
+      exact (rspec_perm ops [] [] (perm_nil _)).
+    Qed.
+
+    Definition rswap_ops (l : list (nat * nat)) : list (rop V) :=
+      map (fun p => RSwap (fst p) (snd p)) l.
+
+    Lemma rswap_ops_ok l : Forall rop_ok (rswap_ops l).
+    Proof. unfold rswap_ops. apply Forall_map. apply Forall_forall. intros; exact I. Qed.
+
+    Lemma rwritten_swaps ops l : rwritten (ops ++ rswap_ops l) = rwritten ops.
+    Proof.
+      unfold rwritten. rewrite flat_map_app.
+      assert (E : flat_map (fun o : rop V => match o with
+                    | RWrite vs => cut_rows V (length vs) vs | _ => [] end) (rswap_ops l) = []).
+      { induction l; simpl; auto. }
+      rewrite E. apply app_nil_r.
+    Qed.
+
+    Lemma swaps_rows_length l : forall c : rcol,
+      length (rrows V (fold_left (rcol_apply V) (rswap_ops l) c)) = length (rrows V c).
+    Proof.
+      induction l as [|p l IH]; intros c; simpl; auto.
+      rewrite IH. unfold rcol_swap. simpl. apply swapl_length.
+    Qed.
+
+    (** whatever exchanges a sort routine performs after any history: if the
+        result has no adjacent inversion for Less, the rows are a permutation of
+        the rows written, each intact, ordered by the comparator *)
+    Theorem repeated_sorted_after_swaps ops l : Forall rop_ok ops ->
+      let c := rreach (xorb nf desc) ops in
+      let c' := rreach (xorb nf desc) (ops ++ rswap_ops l) in
+      rsorted_by_less c' (length (rrows V c')) ->
+      Permutation (rcol_rows V c') (rcol_rows V c) /\
+      Permutation (rcol_rows V c') (rwritten ops) /\
+      forall i j, i <= j -> j < length (rcol_rows V c') ->
+        (cmp_values V cc (row_vals c' i) (row_vals c' j) <= 0)%Z.
+    Proof.
+      intros Hops c c' Hs.
+      assert (Hops' : Forall rop_ok (ops ++ rswap_ops l))
+        by (apply Forall_app; split; auto; apply rswap_ops_ok).
+      destruct (reach_inv (xorb nf desc) _ Hops') as (R1 & R2 & R3). fold c' in R1, R2, R3.
+      destruct (reach_inv (xorb nf desc) _ Hops) as (S1 & S2 & S3). fold c in S1, S2, S3.
+      assert (P1 := rspec_perm (ops ++ rswap_ops l) [] [] (perm_nil _)).
+      assert (P2 := rspec_perm ops [] [] (perm_nil _)).
+      rewrite rwritten_swaps in P1. simpl in P1, P2. fold (rspec_run (ops ++ rswap_ops l)) in P1.
+      fold (rspec_run ops) in P2. rewrite R3, S3.
+      split; [eapply perm_trans; [exact P1|apply Permutation_sym; exact P2]|].
+      split; [exact P1|]. intros i j Hij Hj. rewrite <- R3 in Hj. unfold rcol_rows in Hj.
+      rewrite map_length in Hj. apply rsorted_rows_ordered; auto.
+    Qed.
+
+    Section SortContract.
+      (* sort.Sort only calls Len, Less and Swap; when Less is a strict weak
+         order on the n rows, the exchanges it performs leave no adjacent
+         inversion *)
+      Variable sort_swaps : rcol -> list (nat * nat).
+      Hypothesis sort_sorts : forall c n, n = length (rrows V c) -> rless_swo c n ->
+        rsorted_by_less (fold_left (rcol_apply V) (rswap_ops (sort_swaps c)) c) n.
+
+      Theorem repeated_sorted_after_sort ops : Forall rop_ok ops ->
+        let c := rreach (xorb nf desc) ops in
+        let c' := fold_left (rcol_apply V) (rswap_ops (sort_swaps c)) c in
+        Permutation (rcol_rows V c') (rcol_rows V c) /\
+        Permutation (rcol_rows V c') (rwritten ops) /\
+        forall i j, i <= j -> j < length (rcol_rows V c') ->
+          (cmp_values V cc (row_vals c' i) (row_vals c' j) <= 0)%Z.
+      Proof.
+        intros Hops c c'.
+        destruct (reach_inv (xorb nf desc) _ Hops) as (S1 & S2 & S3). fold c in S1, S2, S3.
+        assert (Hs := sort_sorts c _ eq_refl (rcol_less_swo c S1 S2)). fold c' in Hs.
+        assert (Ec' : c' = rreach (xorb nf desc) (ops ++ rswap_ops (sort_swaps c))).
+        { unfold c', c, rreach. now rewrite fold_left_app. }
+        assert (Hl : length (rrows V c') = length (rrows V c)) by apply swaps_rows_length.
+        rewrite <- Hl in Hs. rewrite Ec' in *.
+        apply (repeated_sorted_after_swaps ops (sort_swaps c) Hops Hs).
+      Qed.
+    End SortContract.
+  End Less.
 End RepeatedProofs.
